@@ -2,7 +2,7 @@
 
    The fragment: scalar assignment, PRINT (expressions, `;`, `,`), GOTO,
    GOSUB, RETURN, FOR/TO/STEP, NEXT, IF c THEN <line>, IF c THEN <statement>,
-   IF c THEN a ELSE b, REM, END — expressions from the fragment of C02 (literals,
+   IF c THEN a ELSE b, READ / DATA / RESTORE, REM, END — expressions from the fragment of C02 (literals,
    variables, unary and binary operators, ABS, INT, parentheses).  It is a
    language of counter machines: programs in it loop, branch and need not
    terminate.
@@ -32,6 +32,14 @@ Local Open Scope nat_scope.
 (* 1. spellings of statements, lines, programs *)
 
 Definition line_target (x : f64) : N := Z.to_N (f64_to_u64_sat x).
+
+(* READ v1, v2, ... *)
+Fixpoint read_toks (vs : list bytes) : list token :=
+  match vs with
+  | [] => []
+  | [v] => [TSymbol v]
+  | v :: r => TSymbol v :: TComma :: read_toks r
+  end.
 
 (* tokens the skipping loop of a false IF passes over *)
 Definition plain_tok (t : token) : bool := negb (token_eqb t TColon || token_eqb t TElse).
@@ -77,6 +85,9 @@ Inductive SRen (F : nat) (d : nat) (rest : list token) : rstmt -> list token -> 
     SRen F d rest (SFor v a b stp) (TFor :: TSymbol v :: TEquals :: ta ++ TTo :: tb ++ tstep)
 | SR_next v : SRen F d rest (SNext v) [TNext; TSymbol v]
 | SR_rem b : SRen F d rest SRem [TRemark b]
+| SR_data items : d = 0 -> SRen F d rest (SData items) [TData items]     (* only as a statement of the line *)
+| SR_restore : SRen F d rest SRestore [TRestore]
+| SR_read vs : vs <> [] -> SRen F d rest (SRead (map (fun v => (v, [])) vs)) (TRead :: read_toks vs)
 | SR_if_stmt c c' tc stmt tn : tr c = Some c' -> Renders 0 c' tc -> S d + pdepth c' < max_nesting -> xsize c <= F ->
     Nat.eqb (S d) max_nesting = false -> SRen F (S d) rest stmt tn ->
     forallb plain_tok tn = true ->      (* no ELSE inside: it would be taken for this IF's *)
@@ -862,6 +873,325 @@ Section Step.
     left. split; [reflexivity|]. cbn. f_equal. lia.
   Qed.
 
+  (* DATA: nothing to execute *)
+  Lemma step_data items rest i :
+    skipn i toks = [TData items] ++ rest ->
+    steps_as (SData items) i [TData items].
+  Proof.
+    intros Hsk. cbn [app] in Hsk. destruct (skipn_cons_nth _ _ _ _ Hsk) as [H0 _].
+    exists 1. intros fuel Hf r o. destruct fuel as [|f]; [lia|].
+    unfold step_result, step_outcome. cbn [exec].
+    cbn [evaluate_statement]. rewrite Hd.
+    unfold evaluate_statement_body.
+    rewrite bind_get_run. change (enable_tracing (at_idx s i r o)) with (enable_tracing s). rewrite Htrace. cbv iota.
+    rewrite bind_ret'.
+    erewrite bind_ok by (apply (next_some s toks Htoks); exact H0). cbv iota beta. cbn [ret].
+    eexists. split; [reflexivity|]. split; [apply keeps_at|].
+    split; [apply same_store_at; destruct Hrel as [A B]; split; [exact A | exact B]|].
+    split; [reflexivity|]. split; [intros HT; exact HT|]. split; [intros HD; exact HD|].
+    split; [left; split; reflexivity|]. split; [left; split; reflexivity|].
+    split; [exists []; split; [rewrite app_nil_r; reflexivity | cbn; rewrite app_nil_r; reflexivity]|].
+    left. split; [reflexivity|]. cbn. f_equal. lia.
+  Qed.
+
+  (* RESTORE: the cursor is forgotten / the position is 0 again *)
+  Lemma step_restore rest i :
+    skipn i toks = [TRestore] ++ rest ->
+    steps_as SRestore i [TRestore].
+  Proof.
+    intros Hsk. cbn [app] in Hsk. destruct (skipn_cons_nth _ _ _ _ Hsk) as [H0 _].
+    exists 1. intros fuel Hf r o. destruct fuel as [|f]; [lia|].
+    unfold step_result, step_outcome. cbn [exec].
+    cbn [evaluate_statement]. rewrite Hd.
+    unfold evaluate_statement_body.
+    rewrite bind_get_run. change (enable_tracing (at_idx s i r o)) with (enable_tracing s). rewrite Htrace. cbv iota.
+    rewrite bind_ret'.
+    erewrite bind_ok by (apply (next_some s toks Htoks); exact H0). cbv iota beta.
+    unfold reset_data_cursor, modify.
+    eexists. split; [reflexivity|]. split; [unfold keeps; repeat split; assumption|].
+    assert (Hfr' : forall X, r_frames (set_dpos' X st) = r_frames st) by (intros; destruct st; reflexivity).
+    assert (Hvr' : forall X, r_vars (set_dpos' X st) = r_vars st) by (intros; destruct st; reflexivity).
+    split; [destruct Hrel as [A B]; split; intros name; [rewrite Hfr'; exact (A name) | rewrite Hvr'; exact (B name)]|].
+    split; [destruct st; reflexivity|]. split; [intros HT; exact HT|].
+    split; [intros _; unfold data_rel; destruct st; reflexivity|].
+    split; [left; split; [destruct st; reflexivity | reflexivity]|].
+    split; [left; split; [destruct st; reflexivity | reflexivity]|].
+    split; [exists []; split; [destruct st; cbn; rewrite app_nil_r; reflexivity | cbn; rewrite app_nil_r; reflexivity]|].
+    left. split; [reflexivity|]. cbn. f_equal. lia.
+  Qed.
+
+  (* READ v1, v2, ...: scalar targets *)
+  (* the stored program's DATA, chunk by chunk, is the reference's flat DATA list *)
+  Definition data_match (x : data_elem * location) (y : data_elem * N) : Prop :=
+    fst x = fst y /\ loc_line (snd x) = Some (snd y).
+  Hypothesis Hdata : exists cs, data_chunks (st_keys s) (st_toks s) = Ok cs /\ Forall2 data_match (flatl cs) (data_list p).
+
+  (* what the loop keeps of the state it started from *)
+  Definition rbase (b : interp) (st1 : rstate) : Prop :=
+    st_toks b = st_toks s /\ st_keys b = st_keys s /\ enable_tracing b = false /\ enable_warnings b = false
+    /\ state b = state s /\ immediate b = immediate s /\ loc_line (loc b) = loc_line (loc s)
+    /\ stack b = stack s /\ loops b = loops s
+    /\ same_store st1 b /\ (typed s -> typed b) /\ data_rel st1 b
+    /\ r_frames st1 = r_frames st /\ r_calls st1 = r_calls st /\ r_loops st1 = r_loops st /\ r_out st1 = r_out st.
+
+  Lemma rbase_tokens b st1 : rbase b st1 -> fst (cur_tokens b) = Ok toks.
+  Proof.
+    intros (B1 & _ & _ & _ & _ & B6 & B7 & _). revert Htoks.
+    unfold cur_tokens, bind, get, tokens_for_line. cbn [fst snd]. rewrite B7, B1, B6.
+    destruct (loc_line (loc s)) as [n|]; [destruct (toks_get n (st_toks s))|]; exact (fun H => H).
+  Qed.
+
+  Lemma Forall2_nth {A B} (R : A -> B -> Prop) l1 l2 k : Forall2 R l1 l2 ->
+    match nth_error l1 k, nth_error l2 k with
+    | Some a, Some b => R a b
+    | None, None => True
+    | _, _ => False
+    end.
+  Proof.
+    intros H. revert k. induction H as [|a b l1 l2 HR H IH]; intros [|k]; cbn; auto. apply IH.
+  Qed.
+
+  Lemma coerce_kind v e x : coerce_data v e = Ok x -> type_matches v x = true.
+  Proof.
+    unfold coerce_data, type_matches. destruct (ends_with_dollar v) eqn:E, e; intros H; inversion H; subst; cbn; rewrite ?E; reflexivity.
+  Qed.
+
+  Lemma bind_unf {A B} (m : M A) (K : A -> M B) x :
+    bind m K x = let (r, s') := m x in
+                 match r with
+                 | Ok a => K a s' | Err e l => (Err e l, s') | Panic pp => (Panic pp, s')
+                 | OutOfFuel => (OutOfFuel, s') | OracleMiss => (OracleMiss, s')
+                 end.
+  Proof. reflexivity. Qed.
+
+  Definition read_body (f nest : nat) : unit -> M (unit + unit) := fun _ : unit =>
+    lv <- parse_lvalue f nest ;;
+    e <- next_data_element ;;
+    match e with
+    | None => fail EOutOfData
+    | Some e =>
+        v <- lift_res (coerce_data (lv_sym lv) e) ;;
+        assign_value lv v ;;;
+        c <- accept_next_token TComma ;;
+        ret (if c then inl tt else inr tt)
+    end.
+
+  Lemma read_loop f nest rest o : (rest = [] \/ exists tr, rest = TColon :: tr) ->
+    forall vs b st1 i r n, vs <> [] -> rbase b st1 -> skipn i toks = read_toks vs ++ rest -> length vs <= n ->
+    match read_targets F p st1 (map (fun v => (v, [])) vs) (line_no p li) with
+    | inr st2 =>
+        exists b' r', repeat_m n (read_body f nest) tt (at_idx b i r o) = (Ok tt, at_idx b' (i + length (read_toks vs)) r' o)
+                      /\ rbase b' st2
+    | inl (Fail ROutOfData line st2) =>
+        line = line_no p li /\ r_out st2 = r_out st /\
+        exists b' i' r', repeat_m n (read_body f nest) tt (at_idx b i r o) = (Err EOutOfData None, at_idx b' i' r' o)
+                         /\ rbase b' st2
+    | inl (Fail RDataTypeMismatch line st2) =>
+        r_out st2 = r_out st /\
+        exists b' i' r' l st3, repeat_m n (read_body f nest) tt (at_idx b i r o) = (Err EDataTypeMismatch None, at_idx b' i' r' o)
+                           /\ rbase b' st3 /\ get_data_location b' = Some l /\ loc_line l = Some line
+    | inl _ => False
+    end.
+  Proof.
+    intros Hrest. destruct Hdata as (cs & Hcs & Hfl).
+    induction vs as [|v vs IH]; intros b st1 i r n Hne Hb Hsk Hn; [congruence|].
+    pose proof (rbase_tokens b st1 Hb) as Hbt.
+    destruct Hb as (B1 & B2 & B3 & B4 & B5 & B6 & B7 & B8 & B9 & B10 & B11 & B12 & B13 & B14 & B15 & B16).
+    destruct n as [|n]; [cbn [length] in Hn; lia|].
+    cbn [map read_targets]. change (eval_subscripts (eval F) st1 []) with (EOk (@nil N) st1). cbv iota.
+    (* the tokens of this target *)
+    assert (Hhead : nth_error toks i = Some (TSymbol v)
+                    /\ ((vs = [] /\ skipn (S i) toks = rest)
+                        \/ (vs <> [] /\ nth_error toks (S i) = Some TComma /\ skipn (S (S i)) toks = read_toks vs ++ rest))).
+    { destruct vs as [|v2 vs2].
+      - cbn [read_toks app] in Hsk. destruct (skipn_cons_nth _ _ _ _ Hsk) as [H0 Hs1]. split; [exact H0|]. left. split; [reflexivity | exact Hs1].
+      - change (read_toks (v :: v2 :: vs2)) with (TSymbol v :: TComma :: read_toks (v2 :: vs2)) in Hsk. cbn [app] in Hsk.
+        destruct (skipn_cons_nth _ _ _ _ Hsk) as [H0 Hs1]. destruct (skipn_cons_nth _ _ _ _ Hs1) as [H1 Hs2].
+        split; [exact H0|]. right. split; [discriminate|]. split; [exact H1 | exact Hs2]. }
+    destruct Hhead as [H0 Hnext].
+    assert (Hnoparen : match nth_error toks (S i) with Some t => token_eqb t TLeftParen | None => false end = false).
+    { destruct Hnext as [[-> Hs1]|(_ & H1 & _)].
+      - destruct Hrest as [->|(tr0 & ->)].
+        + rewrite (skipn_nil_nth _ _ Hs1). reflexivity.
+        + destruct (skipn_cons_nth _ _ _ _ Hs1) as [Hc _]. rewrite Hc. reflexivity.
+      - rewrite H1. reflexivity. }
+    (* the model: the target, then the next DATA item *)
+    assert (Hlv : parse_lvalue f nest (at_idx b i r o) = (Ok (mklv v None), at_idx b (S i) (S (S r)) o)).
+    { unfold parse_lvalue. erewrite bind_ok by (apply (next_some b toks Hbt); exact H0). cbv iota beta.
+      unfold parse_optional_array_index.
+      erewrite bind_ok by (erewrite bind_ok by apply (peek_is_at b toks Hbt); rewrite Hnoparen; reflexivity).
+      reflexivity. }
+    set (x := at_idx b (S i) (S (S r)) o).
+    (* the iterator the model reads from, and its flat position *)
+    assert (Hit : exists it, match data_it b with Some d0 => d0 | None => mkdi cs 0 0 end = it
+                            /\ di_chunks it = cs /\ wf_it it /\ dpos it = r_dpos st1).
+    { unfold data_rel in B12. destruct (data_it b) as [d0|].
+      - destruct B12 as (E & Hw & Hp). exists d0. split; [reflexivity|].
+        rewrite B1, B2, Hcs in E. inversion E. repeat split; first [assumption | reflexivity | (symmetry; assumption)].
+      - exists (mkdi cs 0 0). split; [reflexivity|]. split; [reflexivity|]. split; [apply wf_it_start|].
+        rewrite dpos_start. symmetry. exact B12. }
+    destruct Hit as (it & Ed & Hdc & Hdw & Hdp).
+    pose proof (data_next_spec (S (S (length (di_chunks it)))) it Hdw ltac:(lia)) as Hspec.
+    assert (Hnd : next_data_element x =
+                  (Ok (fst (data_next (S (S (length (di_chunks it)))) it)),
+                   set_data_it (Some (snd (data_next (S (S (length (di_chunks it)))) it))) x)).
+    { unfold next_data_element. change (data_it x) with (data_it b). change (st_keys x) with (st_keys b).
+      change (st_toks x) with (st_toks b). rewrite B1, B2, Hcs.
+      destruct (data_it b) as [d0|]; cbn in Ed; subst it; destruct (data_next _ _); reflexivity. }
+    destruct (data_next (S (S (length (di_chunks it)))) it) as [e d'] eqn:Edn. cbn [fst snd] in Hnd.
+    destruct Hspec as (Hc' & Hw' & Hspec). rewrite Hdc in Hspec, Hc'.
+    pose proof (Forall2_nth _ _ _ (dpos it) Hfl) as Hmatch. rewrite Hdp in Hmatch, Hspec.
+    set (x1 := set_data_it (Some d') x) in *.
+    assert (Hbody : read_body f nest tt (at_idx b i r o) =
+              match e with
+              | None => (Err EOutOfData None, x1)
+              | Some e1 =>
+                  match coerce_data v e1 with
+                  | Ok xv => (if type_matches v xv
+                              then (c <- accept_next_token TComma ;; ret (if c then inl tt else inr tt))
+                                     (set_variables (alist_set v xv (variables x1)) x1)
+                              else (Err ETypeMismatch None, x1))
+                  | Err ie l => (Err ie l, x1)
+                  | Panic pp => (Panic pp, x1)
+                  | OutOfFuel => (OutOfFuel, x1)
+                  | OracleMiss => (OracleMiss, x1)
+                  end
+              end).
+    { unfold read_body. erewrite bind_ok by exact Hlv. cbv beta. erewrite bind_ok by exact Hnd.
+      destruct e as [e1|]; [|reflexivity]. cbn [lv_sym].
+      unfold lift_res. unfold bind at 1. cbn [fst snd].
+      destruct (coerce_data v e1) as [xv|ie l|pp| |]; try reflexivity.
+      unfold assign_value. cbn [lv_index lv_sym]. unfold variables_set.
+      destruct (type_matches v xv); reflexivity. }
+    assert (Hb1 : forall st2, r_dpos st2 = S (r_dpos st1) -> r_vars st2 = r_vars st1 -> r_frames st2 = r_frames st1 ->
+                    r_calls st2 = r_calls st1 -> r_loops st2 = r_loops st1 -> r_out st2 = r_out st1 ->
+                    nth_error (flatl cs) (r_dpos st1) <> None -> rbase (set_data_it (Some d') b) st2).
+    { intros st2 E1 E2 E3 E4 E5 E6 Hsome. unfold rbase. cbn [st_toks st_keys enable_tracing enable_warnings state immediate loc stack loops set_data_it].
+      destruct B10 as [BA BB].
+      split; [exact B1|]. split; [exact B2|]. split; [exact B3|]. split; [exact B4|]. split; [exact B5|]. split; [exact B6|].
+      split; [exact B7|]. split; [exact B8|]. split; [exact B9|].
+      split; [split; intros name; [rewrite E3; exact (BA name) | rewrite E2; exact (BB name)]|].
+      split; [exact B11|].
+      split.
+      { unfold data_rel. cbn [data_it set_data_it st_keys st_toks]. rewrite B1, B2, Hcs, Hc'. split; [reflexivity|]. split; [exact Hw'|].
+        destruct (nth_error (flatl cs) (r_dpos st1)) as [[e0 l0]|]; [|congruence]. destruct Hspec as (_ & Hp' & _). congruence. }
+      repeat split; congruence. }
+    rewrite repeat_m_S, (bind_unf (read_body f nest tt)), Hbody. clear Hbody.
+    destruct (nth_error (flatl cs) (r_dpos st1)) as [[e0 l0]|] eqn:Efl;
+      destruct (nth_error (data_list p) (r_dpos st1)) as [[dd dline]|] eqn:Edl; try contradiction.
+    2:{ (* OUT OF DATA *)
+      destruct Hspec as [-> Hp']. cbv iota.
+      split; [reflexivity|]. split; [exact B16|]. exists (set_data_it (Some d') b), (S i), (S (S r)).
+      split; [reflexivity|].
+      unfold rbase. cbn [st_toks st_keys enable_tracing enable_warnings state immediate loc stack loops set_data_it].
+      destruct B10 as [BA BB].
+      split; [exact B1|]. split; [exact B2|]. split; [exact B3|]. split; [exact B4|]. split; [exact B5|]. split; [exact B6|].
+      split; [exact B7|]. split; [exact B8|]. split; [exact B9|]. split; [split; [exact BA | exact BB]|]. split; [exact B11|].
+      split.
+      { unfold data_rel. cbn [data_it set_data_it st_keys st_toks]. rewrite B1, B2, Hcs, Hc'. split; [reflexivity|]. split; [exact Hw'|]. congruence. }
+      repeat split; assumption. }
+    destruct Hspec as (-> & Hp' & items & Hchunk). destruct Hmatch as [Hfe Hfl']. cbn [fst snd] in Hfe, Hfl'. subst dd.
+    cbv iota.
+    change (str_name v) with (ends_with_dollar v).
+    set (st2 := set_dpos' (S (r_dpos st1)) st1).
+    assert (Hst2 : r_dpos st2 = S (r_dpos st1) /\ r_vars st2 = r_vars st1 /\ r_frames st2 = r_frames st1
+                   /\ r_calls st2 = r_calls st1 /\ r_loops st2 = r_loops st1 /\ r_out st2 = r_out st1)
+      by (unfold st2; destruct st1; repeat split; reflexivity).
+    destruct Hst2 as (S1 & S2 & S3 & S4 & S5 & S6).
+    assert (Hb2 : rbase (set_data_it (Some d') b) st2) by (apply Hb1; try assumption; congruence).
+    assert (Hcoerce : match coerce_data v e0 with
+                      | Ok xv => (if ends_with_dollar v then inl (VStr match e0 with DStr s0 => s0 | DNum x0 => show_f64 x0 end)
+                                  else match e0 with DNum x0 => inl (VNum x0) | DStr _ => inr RDataTypeMismatch end) = inl xv
+                      | Err ie None => ie = EDataTypeMismatch /\
+                          (if ends_with_dollar v then inl (VStr match e0 with DStr s0 => s0 | DNum x0 => show_f64 x0 end)
+                           else match e0 with DNum x0 => inl (VNum x0) | DStr _ => inr RDataTypeMismatch end) = inr RDataTypeMismatch
+                      | _ => False
+                      end).
+    { unfold coerce_data. destruct (ends_with_dollar v), e0; try reflexivity; split; reflexivity. }
+    destruct (coerce_data v e0) as [xv|ie [l1|]|pp| |] eqn:Ecd; try contradiction.
+    2:{ (* DATA TYPE MISMATCH, reported where the item came from *)
+      destruct Hcoerce as [-> Hv]. rewrite Hv.
+      split; [congruence|].
+      exists (set_data_it (Some d') b), (S i), (S (S r)), l0, st2.
+      split; [reflexivity|]. split; [exact Hb2|]. split; [|exact Hfl'].
+      unfold get_data_location. cbn [data_it set_data_it]. rewrite Hc', Hchunk. reflexivity. }
+    rewrite Hcoerce.
+    pose proof (coerce_kind v e0 xv Ecd) as Hkind.
+    unfold store_scalar. rewrite kind_agrees, Hkind.
+    set (b1 := set_variables (alist_set v xv (variables b)) (set_data_it (Some d') b)).
+    set (st3 := set_vars' (update v xv (r_vars st2)) st2).
+    assert (Hb' : rbase b1 st3).
+    { destruct Hb2 as (C1 & C2 & C3 & C4 & C5 & C6 & C7 & C8 & C9 & C10 & C11 & C12 & C13 & C14 & C15 & C16).
+      unfold rbase, b1. cbn [st_toks st_keys enable_tracing enable_warnings state immediate loc stack loops set_variables set_data_it].
+      split; [exact C1|]. split; [exact C2|]. split; [exact C3|]. split; [exact C4|]. split; [exact C5|]. split; [exact C6|].
+      split; [exact C7|]. split; [exact C8|]. split; [exact C9|].
+      split; [apply (same_store_assign st2 (set_data_it (Some d') b)); [exact C10 | reflexivity | reflexivity]|].
+      split; [intros HT; apply (typed_set (set_data_it (Some d') b) _ v xv (C11 HT) Hkind); reflexivity|].
+      split; [apply (data_rel_ext st2 st3 (set_data_it (Some d') b)); try reflexivity; exact C12|].
+      unfold st3. destruct st2; cbn in *. repeat split; assumption. }
+    change (set_variables (alist_set v xv (variables x1)) x1) with (at_idx b1 (S i) (S (S r)) o).
+    pose proof (rbase_tokens b1 st3 Hb') as Hbt1.
+    destruct Hnext as [[-> Hs1]|(Hne' & H1 & Hs2)].
+    - (* the last target *)
+      assert (Hno : forall t, nth_error toks (S i) = Some t -> token_eqb t TComma = false).
+      { intros t Ht. destruct Hrest as [->|(tr0 & ->)].
+        - rewrite (skipn_nil_nth _ _ Hs1) in Ht. discriminate.
+        - destruct (skipn_cons_nth _ _ _ _ Hs1) as [Hc _]. rewrite Hc in Ht. inversion Ht. reflexivity. }
+      erewrite bind_ok by (apply (accept_no b1 toks Hbt1); exact Hno). cbv iota. cbn [ret].
+      cbn [map read_targets]. exists b1, (S (S (S r))). split; [|exact Hb'].
+      cbn [read_toks length]. replace (i + 1) with (S i) by lia. reflexivity.
+    - (* a comma: the next target *)
+      erewrite bind_ok by (apply (accept_yes b1 toks Hbt1 _ _ _ TComma TComma H1); reflexivity). cbv iota. cbn [ret].
+      specialize (IH b1 st3 (S (S i)) (S (S (S r))) n Hne' Hb' Hs2 ltac:(cbn [length] in Hn; lia)).
+      destruct vs as [|v2 vs2]; [congruence|].
+      change (read_toks (v :: v2 :: vs2)) with (TSymbol v :: TComma :: read_toks (v2 :: vs2)).
+      cbn [length]. replace (i + S (S (length (read_toks (v2 :: vs2))))) with (S (S i) + length (read_toks (v2 :: vs2))) by lia.
+      exact IH.
+  Qed.
+
+  Lemma step_read vs rest i :
+    vs <> [] -> skipn i toks = (TRead :: read_toks vs) ++ rest -> (rest = [] \/ exists tr, rest = TColon :: tr) ->
+    data_rel st s ->
+    steps_as (SRead (map (fun v => (v, [])) vs)) i (TRead :: read_toks vs).
+  Proof.
+    intros Hne Hsk Hrest Hdr. cbn [app] in Hsk. destruct (skipn_cons_nth _ _ _ _ Hsk) as [H0 Hs1].
+    exists (S (length vs)). intros fuel Hf r o. destruct fuel as [|f]; [lia|].
+    assert (Hrun : evaluate_statement (S f) d (at_idx s i r o) = repeat_m f (read_body f (S d)) tt (at_idx s (S i) (S r) o)).
+    { cbn [evaluate_statement]. rewrite Hd.
+      unfold evaluate_statement_body.
+      rewrite bind_get_run. change (enable_tracing (at_idx s i r o)) with (enable_tracing s). rewrite Htrace. cbv iota.
+      rewrite bind_ret'.
+      erewrite bind_ok by (apply (next_some s toks Htoks); exact H0). reflexivity. }
+    unfold step_result. rewrite Hrun. clear Hrun. cbn [exec].
+    assert (Hb : rbase s st).
+    { unfold rbase. repeat split; try reflexivity; try assumption; try (intros HT; exact HT).
+      - destruct Hrel as [A _]. exact A.
+      - destruct Hrel as [_ B]. exact B. }
+    pose proof (read_loop f (S d) rest o Hrest vs s st (S i) (S r) f Hne Hb Hs1 ltac:(lia)) as HL.
+    destruct (read_targets F p st (map (fun v => (v, [])) vs) (line_no p li)) as [[pc st'|st'|er line st'|]|st2];
+      try contradiction.
+    - destruct er; try contradiction.
+      + (* OUT OF DATA *)
+        destruct HL as (-> & Hro & b' & i' & r' & Hrun & Hb').
+        destruct Hb' as (C1 & C2 & C3 & C4 & C5 & C6 & C7 & C8 & C9 & C10 & C11 & C12 & C13 & C14 & C15 & C16).
+        unfold step_outcome. split; [reflexivity|]. split; [exact Hro|]. eexists _, _. split; [exact Hrun|].
+        split; [reflexivity|]. split; [unfold keeps; repeat split; assumption|].
+        split; [exact C7|]. split; [reflexivity | discriminate].
+      + (* DATA TYPE MISMATCH *)
+        destruct HL as (Hro & b' & i' & r' & l & st3 & Hrun & Hb' & Hgl & Hll).
+        destruct Hb' as (C1 & C2 & C3 & C4 & C5 & C6 & C7 & C8 & C9 & C10 & C11 & C12 & C13 & C14 & C15 & C16).
+        unfold step_outcome. split; [exact Hro|]. eexists _, l. split; [exact Hrun|].
+        split; [unfold keeps; repeat split; assumption|]. split; [reflexivity|]. split; [exact Hgl | exact Hll].
+    - destruct HL as (b' & r' & Hrun & Hb').
+      destruct Hb' as (C1 & C2 & C3 & C4 & C5 & C6 & C7 & C8 & C9 & C10 & C11 & C12 & C13 & C14 & C15 & C16).
+      unfold step_outcome. eexists. split; [exact Hrun|].
+      split; [unfold keeps; repeat split; assumption|].
+      split; [exact C10|]. split; [exact C13|]. split; [exact C11|]. split; [intros _; exact C12|].
+      split; [left; split; [exact C14 | exact C8]|]. split; [left; split; [exact C15 | exact C9]|].
+      split; [exists []; split; [rewrite app_nil_r; exact C16 | cbn; rewrite app_nil_r; reflexivity]|].
+      left. split; [reflexivity|]. cbn [loc at_idx set_loc set_reads set_outputs]. rewrite C7. cbn [length]. f_equal. lia.
+  Qed.
+
   (* END *)
   Lemma step_end rest i :
     skipn i toks = [TEnd] ++ rest -> immediate s = [] ->
@@ -1125,6 +1455,96 @@ Proof.
   destruct 1 as [n x H1|v e e' te H1 H2 H3 H4 H5|items mitems ti H1 H2 H3 H4|n x H1| | |v]; try reflexivity.
   - cbn [forallb]. rewrite (Renders_plain _ _ _ H2). reflexivity.
   - cbn [forallb]. rewrite (IRenders_plain _ _ _ H2). reflexivity.
+Qed.
+
+
+(* DATA tokens occur only as DATA statements of the line *)
+Definition notdata (t : token) : bool := match t with TData _ => false | _ => true end.
+
+Lemma Renders_nodata k e ts : Renders k e ts -> forallb notdata ts = true.
+Proof.
+  induction 1 as [x|b|name|e ts H IH|e ts H IH|e ts H IH|op e ts H IH|op a b ta tb Ha IHa Hb IHb|k e ts Hk H IH];
+    try reflexivity; try exact IH.
+  - cbn [forallb]. rewrite forallb_app', IH. reflexivity.
+  - cbn [forallb]. rewrite forallb_app', IH. reflexivity.
+  - cbn [forallb]. rewrite forallb_app', IH. reflexivity.
+  - cbn [forallb]. rewrite IH. destruct op; reflexivity.
+  - rewrite forallb_app'. cbn [forallb]. rewrite IHa, IHb.
+    destruct op as [| |c|[]|[]|]; try reflexivity. destruct c; reflexivity.
+Qed.
+
+Lemma IRenders_nodata rest items ts : IRenders rest items ts -> forallb notdata ts = true.
+Proof.
+  induction 1 as [Hend|r0 ts H IH|r0 ts H IH|e te r0 ts He Hst H IH]; try reflexivity.
+  - cbn [forallb]. rewrite IH. reflexivity.
+  - cbn [forallb]. rewrite IH. reflexivity.
+  - rewrite forallb_app', (Renders_nodata _ _ _ He), IH. reflexivity.
+Qed.
+
+Lemma TRen_nodata F d rest a ts : TRen F d rest a ts -> forallb notdata ts = true.
+Proof.
+  destruct 1 as [n x H1|v e e' te H1 H2 H3 H4 H5|items mitems ti H1 H2 H3 H4|n x H1| | |v]; try reflexivity.
+  - cbn [forallb]. rewrite (Renders_nodata _ _ _ H2). reflexivity.
+  - cbn [forallb]. rewrite (IRenders_nodata _ _ _ H2). reflexivity.
+Qed.
+
+Lemma read_toks_nodata vs : forallb notdata (read_toks vs) = true.
+Proof. induction vs as [|v [|v2 vs] IH]; try reflexivity. exact IH. Qed.
+
+Lemma SRen_nodata F d rest stmt ts : SRen F d rest stmt ts ->
+  (exists items, stmt = SData items /\ ts = [TData items] /\ d = 0)
+  \/ (forallb notdata ts = true /\ data_of_stmt stmt = []).
+Proof.
+  induction 1 as [d rest v e e' te H1 H2 H3 H4 H5|d rest items mitems ti H1 H2 H3 H4|d rest n x H1|d rest n x H1|d rest|d rest
+                 |d rest c c' tc n x H1 H2 H3 H4 H5
+                 |d rest v a a' ta b b' tb stp tstep A1 A2 A3 A4 B1 B2 B3 B4 HC|d rest v|d rest b0
+                 |d rest items Hd0|d rest|d rest vs Hvs
+                 |d rest c c' tc stmt tn H1 H2 H3 H4 H5 H6 IH H7
+                 |d rest c c' tc A ta n x H1 H2 H3 H4 H5 H6 H7|d rest c c' tc A ta B tb H1 H2 H3 H4 H5 H6 H7 IH];
+    try (right; split; reflexivity).
+  - right. split; [|reflexivity]. cbn [forallb]. rewrite (Renders_nodata _ _ _ H2). reflexivity.
+  - right. split; [|reflexivity]. cbn [forallb]. rewrite (IRenders_nodata _ _ _ H2). reflexivity.
+  - right. split; [|reflexivity]. cbn [forallb]. rewrite forallb_app', (Renders_nodata _ _ _ H2). reflexivity.
+  - right. split; [|reflexivity]. cbn [forallb]. rewrite forallb_app', (Renders_nodata _ _ _ A2). cbn [forallb].
+    rewrite forallb_app', (Renders_nodata _ _ _ B2).
+    destruct HC as [[_ ->]|(c & c' & tc & _ & -> & _ & Hr & _)]; [reflexivity|].
+    cbn [forallb]. rewrite (Renders_nodata _ _ _ Hr). reflexivity.
+  - left. exists items. repeat split. exact Hd0.
+  - right. split; [|reflexivity]. cbn [forallb]. apply read_toks_nodata.
+  - right. split; [|reflexivity]. cbn [forallb]. rewrite forallb_app', (Renders_nodata _ _ _ H2). cbn [forallb].
+    destruct IH as [(items & _ & _ & E)|[IH _]]; [discriminate | exact IH].
+  - right. split; [|reflexivity]. cbn [forallb]. rewrite forallb_app', (Renders_nodata _ _ _ H2). cbn [forallb].
+    rewrite forallb_app', (TRen_nodata _ _ _ _ _ H6). reflexivity.
+  - right. split; [|reflexivity]. cbn [forallb]. rewrite forallb_app', (Renders_nodata _ _ _ H2). cbn [forallb].
+    rewrite forallb_app', (TRen_nodata _ _ _ _ _ H6). cbn [forallb].
+    destruct IH as [(items & _ & _ & E)|[IH _]]; [discriminate | exact IH].
+Qed.
+
+Lemma chunks_nodata n ts k : forallb notdata ts = true -> data_chunks_of_line n ts k = [].
+Proof.
+  revert k. induction ts as [|t ts IH]; intros k H; [reflexivity|]. cbn [forallb] in H. apply andb_true_iff in H. destruct H as [H1 H2].
+  destruct t; try discriminate; cbn [data_chunks_of_line]; apply IH; exact H2.
+Qed.
+
+Lemma chunks_app n a b k : data_chunks_of_line n (a ++ b) k = data_chunks_of_line n a k ++ data_chunks_of_line n b (k + length a).
+Proof.
+  revert k. induction a as [|t a IH]; intros k; cbn [app length]; [rewrite Nat.add_0_r; reflexivity|].
+  destruct t; cbn [data_chunks_of_line]; rewrite IH; try (replace (S k + length a) with (k + S (length a)) by lia; reflexivity).
+Qed.
+
+Lemma LRen_chunks F n stmts toks : LRen F stmts toks -> forall k,
+  Forall2 data_match (flatl (data_chunks_of_line n toks k)) (map (fun d => (d, n)) (flat_map data_of_stmt stmts)).
+Proof.
+  assert (Hone : forall rest s ts k, SRen F 0 rest s ts ->
+            Forall2 data_match (flatl (data_chunks_of_line n ts k)) (map (fun d => (d, n)) (data_of_stmt s))).
+  { intros rest s ts k HS. destruct (SRen_nodata _ _ _ _ _ HS) as [(items & -> & -> & _)|[Hnd Hds]].
+    - cbn [data_chunks_of_line data_of_stmt]. unfold flatl. cbn [map concat fst snd]. rewrite app_nil_r. clear HS.
+      induction items as [|e items IH]; cbn [map]; [constructor|]. constructor; [split; reflexivity | exact IH].
+    - rewrite (chunks_nodata _ _ _ Hnd), Hds. constructor. }
+  induction 1 as [s ts HS|s ts r tr HS HL IH]; intros k.
+  - cbn [flat_map]. rewrite app_nil_r. apply (Hone [] s ts k HS).
+  - cbn [flat_map]. rewrite map_app, chunks_app, flatl_app. apply Forall2_app; [apply (Hone _ s ts k HS)|].
+    cbn [data_chunks_of_line]. apply IH.
 Qed.
 
 Lemma SRen_head F d rest stmt ts : SRen F d rest stmt ts -> exists t ts', ts = t :: ts' /\ forall x, t <> TNumber x.
@@ -1832,6 +2252,27 @@ Section Program.
     destruct (LRen_nonempty _ _ _ HL) as (t & l' & -> & Hne & _). exists t, l'. split; assumption.
   Qed.
 
+  (* the stored program's DATA chunks are the reference's DATA list *)
+  Lemma chunks_of_program T : forall q,
+    (forall n stmts, In (n, stmts) q -> exists toks, toks_get n T = Some toks /\ LRen F stmts toks) ->
+    exists cs, data_chunks (map fst q) T = Ok cs /\ Forall2 data_match (flatl cs) (data_list q).
+  Proof.
+    induction q as [|[n stmts] q IH]; intros H.
+    - exists []. split; [reflexivity | constructor].
+    - destruct (H n stmts (or_introl eq_refl)) as (toks & Ht & HL).
+      destruct IH as (cs & Hcs & Hfl); [intros n0 s0 Hin; apply H; right; exact Hin|].
+      exists (data_chunks_of_line n toks 0 ++ cs). cbn [map fst data_chunks]. rewrite Ht, Hcs. split; [reflexivity|].
+      rewrite flatl_app. unfold data_list. cbn [flat_map fst snd]. apply Forall2_app; [|exact Hfl].
+      apply (LRen_chunks F n stmts toks HL 0).
+  Qed.
+
+  Lemma inv_data s : Inv s ->
+    exists cs, data_chunks (st_keys s) (st_toks s) = Ok cs /\ Forall2 data_match (flatl cs) (data_list p).
+  Proof.
+    intros HI. rewrite (i_keys s HI). apply chunks_of_program. intros n stmts Hin.
+    apply In_nth_error in Hin. destruct Hin as (li & Hli). exact (i_lines s HI li n stmts Hli).
+  Qed.
+
   (* the THEN arm in front of an ELSE *)
   Lemma tren_steps s toks li aft st d A ta rest' j :
     Inv s -> fst (cur_tokens s) = Ok toks -> same_store st s -> calls_rel st s -> loops_rel st s -> typed s ->
@@ -1861,18 +2302,20 @@ Section Program.
   (* every statement of the fragment steps as its step lemma says *)
   Lemma sren_steps s toks li after st d stmt ts rest i :
     Inv s -> fst (cur_tokens s) = Ok toks -> same_store st s -> calls_rel st s -> loops_rel st s -> typed s ->
+    data_rel st s ->
     Nat.eqb d max_nesting = false ->
     skipn i toks = ts ++ rest -> (rest = [] \/ exists tr, rest = TColon :: tr) ->
     SRen F d rest stmt ts ->
     pcloc (st_toks s) after (mkloc (loc_line (loc s)) (i + length ts)) ->
     steps_as F p s toks (pcloc (st_toks s)) d li after st stmt i ts.
   Proof.
-    intros HI Htoks Hrel Hcr Hlr Hty Hd Hsk Hrest HS HLa.
+    intros HI Htoks Hrel Hcr Hlr Hty Hdr Hd Hsk Hrest HS HLa.
     pose proof (i_trace s HI) as Htr. pose proof (i_warn s HI) as Hw.
     revert i Hd Hsk Hrest HLa.
     induction HS as [d rest v e e' te H1 H2 H3 H4 H5|d rest items mitems ti H1 H2 H3 H4|d rest n x H1|d rest n x H1|d rest|d rest
                     |d rest c c' tc n x H1 H2 H3 H4 H5
                     |d rest v a a' ta b b' tb stp tstep A1 A2 A3 A4 B1 B2 B3 B4 HC|d rest v|d rest b0
+                    |d rest items Hd0|d rest|d rest vs Hvs
                     |d rest c c' tc stmt tn H1 H2 H3 H4 H5 H6 IH H7
                     |d rest c c' tc A ta n x H1 H2 H3 H4 H5 H6 H7|d rest c c' tc A ta B tb H1 H2 H3 H4 H5 H6 H7 IH]; intros i Hd Hsk Hrest HLa.
     - eapply (step_let F p s toks Htoks Htr Hw (pcloc (st_toks s)) d Hd li after st Hrel v e e' te rest i); eassumption.
@@ -1889,6 +2332,9 @@ Section Program.
       apply loops_lsame. exact Hlr.
     - eapply (step_next F p s toks Htoks Htr Hw (pcloc (st_toks s)) d Hd li after st Hrel v rest i); [exact Hsk | apply loops_lsame; exact Hlr | exact Hty].
     - eapply (step_rem F p s toks Htoks Htr Hw (pcloc (st_toks s)) d Hd li after st Hrel b0 rest i). exact Hsk.
+    - eapply (step_data F p s toks Htoks Htr Hw (pcloc (st_toks s)) d Hd li after st Hrel items rest i). exact Hsk.
+    - eapply (step_restore F p s toks Htoks Htr Hw (pcloc (st_toks s)) d Hd li after st Hrel rest i). exact Hsk.
+    - eapply (step_read F p s toks Htoks Htr Hw (pcloc (st_toks s)) d Hd li after st Hrel (inv_data s HI) vs rest i); assumption.
     - destruct (SRen_head _ _ _ _ _ H6) as (t0 & tn' & Etn & Hnum).
       apply (step_if_stmt F p s toks Htoks Htr Hw (Inv_lines s HI) (calls_land st s Hcr) (loops_land st s Hlr)
                (pcloc (st_toks s)) d Hd li after st Hrel c c' tc stmt tn t0 tn' rest i Hsk Hrest H1 H2 H3 H4 Etn Hnum H7).
@@ -1983,7 +2429,7 @@ Section Program.
         assert (Hz : length (skipn si stmts) = 1) by (rewrite Hst; reflexivity).
         rewrite skipn_length in Hz. lia.
       - left. exists tr'. split; [exact Hsk0|]. rewrite Hrs. exact HL'. }
-    destruct (sren_steps s toks li (li, S si) st 0 stmt ts rest i HI Htoks Hrel Hcr Hlr Hty eq_refl Hsk Hrest' HS Hafter0) as (f0 & Hstep).
+    destruct (sren_steps s toks li (li, S si) st 0 stmt ts rest i HI Htoks Hrel Hcr Hlr Hty Hdr eq_refl Hsk Hrest' HS Hafter0) as (f0 & Hstep).
     destruct (SRen_nonempty _ _ _ _ _ HS) as (t & ts' & Ets & _).
     assert (Hnt : nth_error (cur_toks s) (loc_idx (loc s)) = Some t).
     { rewrite Hct. fold i. rewrite Ets in Hsk. cbn [app] in Hsk. apply (skipn_cons_nth _ _ _ _ Hsk). }
